@@ -224,6 +224,19 @@ def renderModes (m : Bool × Bool × Bool) : String := s!"modes={boolStr m.1},{b
 def outcomeTag {α : Type} : Outcome α → String
   | .ok _ => "ok" | .err _ => "err" | .panic _ => "panic"
 
+/-- c10.query <query>: outcome class of `server.NewAggregate` on a client-supplied query text -/
+def opC10Query : List String → Res
+  | [h] => match unhex h with
+    | some q =>
+      let r := match newQuery (fun _ => none) q with
+        | .panic p => "PANIC " ++ p
+        | .err _ => "err"
+        | .ok none => "err"
+        | .ok (some _) => "ok"
+      { m := r, s := "no-panic", t := r }
+    | none => bad
+  | _ => bad
+
 def opC10Decode : List String → Res
   | [h] => match unhex h with
     | some stream =>
@@ -1173,6 +1186,7 @@ def dispatch (line : String) : Res :=
   | "c09.health" :: a => opC09Health a
   | "c10.decode" :: a => opC10Decode a
   | "c10.run" :: a => opC10Run a
+  | "c10.query" :: a => opC10Query a
   | "c12.roundtrip" :: a => opC12Roundtrip a
   | "c11.parse" :: a => opC11Parse a
   | "c13.script" :: a => opC13Script a
